@@ -24,8 +24,18 @@ func C02(c *core.Ctx) {
 
 	res := runE2EShards(c, "e2e-rand", nshards, "TraceE2E_C02.cfg", func(i int) interface{} {
 		dir, trace := shardDir(c, i)
-		return E2EParams{Dir: dir, Trace: trace, AgentBin: filepath.Join(c.BinDir, "verif-agent"), N4Addr: n4For(i),
+		pr := E2EParams{Dir: dir, Trace: trace, AgentBin: filepath.Join(c.BinDir, "verif-agent"), N4Addr: n4For(i),
 			Seed: c.Seed*1000 + 500 + int64(i), Scenarios: scenarios, Steps: steps, Rejects: true, Kill: false, Alloc: 1, EndMarker: 0, PoolLens: []int{24}}
+
+		// the agent's own heartbeats are in flight next to its responses (15 ms interval) in two shards: what a peer receives is
+		// one response per request there too.  (Not under the race detector: it reports a race inside ONE association on the
+		// unchanged tree - the heartbeat monitor's SendPFCPMsg reads nodeID.remote while a repeated Association Setup Request
+		// writes it - which no listed property speaks about; DESIGN 11.7.)
+		if i%8 == 6 || i%8 == 7 {
+			pr.HB = true
+		}
+
+		return pr
 	})
 	judgeE2E(c, res, map[string]bool{"InEnvelope": true})
 }
